@@ -7,10 +7,11 @@
  *   bb  lib/ext2fs/badblocks.c    sorted u32 list
  *   rg  e2fsck/region.c           allocated intervals
  *
- * and prints one ndjson line per call: the result, the private arrays (the sources of ea_refcount.c, region.c and
- * icount.c of the tree under test are compiled INTO this program, so their private structs are visible; dblist and
- * badblocks structs come from ext2fsP.h and the code from libext2fs.a) and what a caller can observe through the
- * public API afterwards (fetch of every key, enumeration order, test of every value).  The observation runs with the
+ * and prints one ndjson line per call: the result, the private arrays (ea_refcount.c, region.c and icount.c of the tree
+ * under test are compiled INTO this program -- #include of the .c files from the scratch build tree -- so their private
+ * structs are visible and, built with -fsanitize=address by checks/c01_containers.py, every access they make is checked;
+ * the dblist and badblocks structs come from ext2fsP.h, which has no include guard and so cannot be pulled in twice, and
+ * their code from libext2fs.a) and what a caller can observe through the public API afterwards (fetch of every key, enumeration order, test of every value).  The observation runs with the
  * look-up cursor saved and restored, so that it is not itself a step of the history.
  *
  * Input (stdin), one call per line:
@@ -19,7 +20,8 @@
  *   reset ic <mode 0|1|2> <size> <ninodes> <ndirs> <bitmaptype>      size 0: the code's estimate
  *   ic fetch i | ic inc i | ic dec i | ic store i c | ic recreate <mode> <size>
  *   reset db <ndirs> <ninodes>               ext2fs_init_dblist: size = 2 * ndirs + 12
- *   db add i b c | db set i b c | db sort <0 default|1 caller's order, sort2|2 caller's order, legacy sort>
+ *   db add i b c | db set i b c          (b up to 2^62; logged as bh = b >> 30, bl = b & (2^30 - 1), list entries as [ino, bh, bl, blockcnt])
+ *   db sort <0 default|1 caller's order, sort2|2 caller's order, legacy sort>
  *   db iter start count | db iter32 | db count | db last | db drop | db copy
  *   reset bb <size> <maxval>                 ext2fs_u32_list_create(size)  (0 = default, 10)
  *   bb add v | bb del v | bb test v | bb iter | bb count | bb copy | bb eqmod v
